@@ -82,10 +82,37 @@ def f3_opaque_nil():
     return dict(funcs=[f0, f1], ginit=[], gpkg=[], npkgs=1)
 
 
+def f27_unknown_path_at_join():
+    """x0 = F1(&T{}); x0.V with func F1(p *T) *T { x := G0; if opaque() { if p != nil { x = &T{} } else { x = nil } }; return x }
+    and G0 nil (fixed: F27, the empty nilness table of the path around the outer `if` was dropped at the join)"""
+    f0 = dict(nparams=0, pkg=0, method=False, body=M.seq([("call", L(0), 1, ["new"], 1), ("deref", 1, L(0))]))
+    f1 = dict(nparams=1, pkg=0, method=False, body=M.seq([
+        ("assign", L(1), G(0)),
+        ("if", ("opaque",), ("if", ("nonnil", L(0)), ("assign", L(1), "new"), ("assign", L(1), "nil")), ("skip",)),
+        ("return", L(1))]))
+    return dict(funcs=[f0, f1], ginit=[False], gpkg=[0], npkgs=1)
+
+
+def f28_controller_decided_in_second_pass():
+    """x0, e50 = F1(); if e50 != nil { return }; x1 = F2(x0); x1.V  with F1 returning (G0, nil), G0 nil, and
+    func F2(p *T) *T { if p == nil { return nil }; return &T{} } (fixed: F28, the controlled triggers of the call to F2
+    were forgotten before the second inference pass decided that x0 is nilable)"""
+    f0 = dict(nparams=0, pkg=0, method=False, ltypes={50: "E"}, ptypes=[], rtype="T", impl=None, err=False,
+              body=M.seq([("call2", L(0), L(50), 1, [], 1),
+                          ("if", ("nonnil", L(50)), ("return", "new"), ("skip",)),
+                          ("call", L(1), 2, [L(0)], 2), ("deref", 1, L(1)), ("return", "new")]))
+    f1 = dict(nparams=0, pkg=0, method=False, ltypes={50: "E"}, ptypes=[], rtype="T", impl=None, err=True,
+              body=M.seq([("assign", L(50), "nil"), ("if", ("opaque",), ("assign", L(50), "new"), ("skip",)), ("return2", G(0), L(50))]))
+    f2 = dict(nparams=1, pkg=0, method=False, ltypes={}, ptypes=["T"], rtype="T", impl=None, err=False,
+              body=M.seq([("if", ("not", ("nonnil", L(0))), ("return", "nil"), ("skip",)), ("return", "new")]))
+    return dict(funcs=[f0, f1, f2], ginit=[False], gpkg=[0], npkgs=1)
+
+
 def c20_cases():
     return [Case("kf4xpkg", f4_cross_package_contract(), "corpus"), Case("kf4same", f4_same_package_control(), "corpus"),
             Case("kf21lit", f21_literal_arg(), "corpus"), Case("kf23loop", f23_loop_overwrite(), "corpus"),
-            Case("kf3opq", f3_opaque_nil(), "corpus")]
+            Case("kf3opq", f3_opaque_nil(), "corpus"), Case("kf27join", f27_unknown_path_at_join(), "corpus"),
+            Case("kf28pass", f28_controller_decided_in_second_pass(), "corpus")]
 
 
 def f26_check_inside_loop():
